@@ -31,6 +31,7 @@ py_value = st.one_of(
     st.dictionaries(st.text(st.sampled_from('abc'), max_size=2), st.integers(0, 5), max_size=2).map(lambda d: {'$': 'dict', 'v': [[k, v] for k, v in sorted(d.items())]}),
     st.binary(max_size=4).map(lambda b: {'$': 'bytes', 'v': b.decode('latin-1')}),
     st.integers(0, 99).map(lambda n: {'$': 'obj', 'v': n}),
+    st.sampled_from(['eqany', 'eqraises', 'elementwise']).map(lambda k: {'$': 'weird', 'v': k}),      # objects whose == is unusual: equal to anything / raising / element-wise
     st.sampled_from(['#N/A', '#DIV/0!', '#NAME?', '#NULL!', '#NUM!', '#REF!', '#VALUE!', '#GETTING_DATA', '#ERROR!']).map(lambda c: {'$': 'err', 'v': c}),
     st.lists(st.integers(0, 3), max_size=3).map(lambda l: {'$': 'set', 'v': sorted(set(l))}),
 )
@@ -45,6 +46,8 @@ def fix_float(spec):
 def same(a, b):
     if a is b:
         return True
+    if type(a).__name__ in ('EqAny', 'EqRaises', 'EqElementwise') or type(b).__name__ in ('EqAny', 'EqRaises', 'EqElementwise'):
+        return False        # such objects are "exactly that value" only by identity
     if type(a) != type(b):
         return False
     if isinstance(a, float) and math.isnan(a):
@@ -409,7 +412,7 @@ def unknown_key(c):
 LAWS = [
     Law('variable_identity', check_variable, quick=3000, thorough=100000, shards=(8, 16), classes=var_classes,
         strategy=st.fixed_dictionaries({'name': var_name, 'value': py_value, 'others': st.lists(st.tuples(var_name, py_value).map(list), max_size=3)}),
-        required=('int', 'float', 'str', 'bool', 'NoneType', 'list', 'tuple', 'dict', 'bytes', 'Opaque', 'XLError', 'frozenset', 'underscore', 'letters', 'builtin-name'),
+        required=('int', 'float', 'str', 'bool', 'NoneType', 'list', 'tuple', 'dict', 'bytes', 'Opaque', 'XLError', 'frozenset', 'EqAny', 'EqRaises', 'EqElementwise', 'underscore', 'letters', 'builtin-name'),
         nontrivial=lambda c: not isinstance(c['value'], (int, str)) or isinstance(c['value'], bool) or '_' in c['name'],
         rule='a name of the identifier grammar bound to a value of any Python type (numbers incl. nan/inf and big ints, text, logical, blank, lists, tuples, dicts, bytes, sets, opaque objects, error values) next to up to 3 other variables: '
              'the formula consisting of the name evaluates to exactly that value (error values to their code), other variables are unaffected, the other letter case is #NAME?'),
